@@ -1,6 +1,8 @@
 use crate::macros::dispatch;
 
 pub use methods::dispatch as get_month;
+#[cfg(feature = "verif_hooks")]
+pub use methods::verif_inner;
 
 #[dispatch]
 mod methods {
@@ -16,5 +18,11 @@ mod methods {
 
     fn get_month(this: DateTime<Utc>, timezone: String) -> CelResult<i64> {
         Ok(get_adjusted_datetime(this, timezone)?.month0() as i64)
+    }
+
+    /// Forwarders to the typed overloads, for the external verification harness.
+    #[cfg(feature = "verif_hooks")]
+    pub mod verif_inner {
+        pub fn utc(this: chrono::DateTime<chrono::Utc>) -> i64 { super::get_month_zti(this) }
     }
 }
